@@ -59,9 +59,9 @@ def expectLogs (s : State) : List SwapLog → State
 
 /-- native supply + ERC20 supply of every bound token of `pre` is the same in `post` -/
 def combinedSame (pre post : State) : Bool :=
-  pre.tokens.all fun e =>
-    e.2.contract == 0 ||
-    supplyOf post e.2.minUnit + evmTotal post e.2.contract == supplyOf pre e.2.minUnit + evmTotal pre e.2.contract
+  Spec.C09.allB pre.tokens fun _ t =>
+    t.contract == 0 ||
+    supplyOf post t.minUnit + evmTotal post t.contract == supplyOf pre t.minUnit + evmTotal pre t.contract
 
 /-- what an accepted conversion must have done -/
 def acceptedFails (pre : State) (op : Op) (post : State) : List Fail :=
